@@ -4,6 +4,7 @@ Runs the *executable definitions the theorems are about* (PyOak/Model/*).
 -/
 import PyOak.Handle.Traverse
 import PyOak.Handle.XPath
+import PyOak.Handle.Encode
 open PyOak PyOak.Sexp
 
 def dispatch (s : Sexp) : Sexp :=
@@ -13,6 +14,8 @@ def dispatch (s : Sexp) : Sexp :=
       if cmd == "dfs" || cmd == "bfs" || cmd == "gather" || cmd == "edges" then handleTraverse cmd args
       else if cmd == "tree-queries" then handleTreeQ args
       else if cmd == "xpath" then handleXPath args
+      else if cmd == "cid-pre" then handleCidPre args
+      else if cmd == "cid-eq" then handleCidEq args
       else none
     match r with
     | some x => x
